@@ -61,6 +61,14 @@ def single_mutations(slices):
         for ch in ".;@#=!":
             yield "illegal-char-glued", (i, ch), J(slices[:i] + [slices[i] + ch] + slices[i + 1:])
             yield "illegal-char-glued", (i, ch), J(slices[:i] + [ch + slices[i]] + slices[i + 1:])
+    # another kind of bracket where the language has exactly one: ( ) for tuples and groups, { } for blocks
+    swaps = {"(": ["[", "{", "<"], ")": ["]", "}", ">"], "{": ["(", "[", ":"], "}": [")", "]", "end"]}
+    for i in range(n):
+        for alt in swaps.get(slices[i], []):
+            yield "bracket-kind", (i, alt), J(slices[:i] + [alt] + slices[i + 1:])
+    if "(" in slices:
+        yield "bracket-kind", "all-square", J([{"(": "[", ")": "]"}.get(t, t) for t in slices])
+        yield "bracket-kind", "all-curly", J([{"(": "{", ")": "}"}.get(t, t) for t in slices])
     # two neighbours written without the blank between them (the reference lexer decides what that text is: often still
     # the same sentence - `{return` - sometimes another sentence, sometimes no sentence at all - `else ifx`, `weighted1`)
     for i in range(n - 1):
